@@ -397,28 +397,94 @@ Proof.
   - right. split; [exact Hlen | reflexivity].
 Qed.
 
-(* the delay chosen by schedule() is at least d - jitter for documented arguments in range *)
-Lemma next_delay_lb d j r nx :
-  next_delay true d j r = Some nx -> r_valid true j r = true ->
-  0 <= j < d -> d + j <= max_i64 -> d - j <= nx.
+(* ---- the two rand draws and their single-integer numbering ---- *)
+Lemma draws_valid j r m b : 0 <= r < 2 * j -> draws j r = (m, b) -> 0 <= m < j.
 Proof.
-  unfold next_delay, r_valid, calls_rand, rand_arg. cbn [negb orb]. intros Hn Hr Hj Hmax.
-  assert (Hw : wrap64 (2 * j) = 2 * j) by (apply wrap64_small; unfold max_i64 in *; lia).
-  rewrite Hw in *.
-  destruct (0 <? j) eqn:Ej; zb.
-  - destruct (2 * j <=? 0) eqn:E2; [discriminate|]. zb. injection Hn as <-.
-    assert (E3 : (0 <? 2 * j) = true) by (apply Z.ltb_lt; lia). rewrite E3 in Hr. cbn [andb] in Hr. zb.
-    rewrite wrap64_small by (unfold max_i64 in *; lia). lia.
-  - injection Hn as <-. lia.
+  intros Hr. unfold draws. destruct (r <? j) eqn:E; zb; intros H; injection H as <- <-; lia.
 Qed.
 
-Lemma next_delay_no_panic d j r : 0 <= j -> 2 * j <= max_i64 -> next_delay true d j r <> None.
+Lemma draws_onto j m b : 0 <= m < j -> exists r, 0 <= r < 2 * j /\ draws j r = (m, b).
 Proof.
-  unfold next_delay, calls_rand, rand_arg. cbn [negb orb]. intros Hj Hmax.
-  destruct (0 <? j) eqn:Ej; zb; [|discriminate].
-  rewrite wrap64_small by (unfold max_i64 in *; lia).
-  destruct (2 * j <=? 0) eqn:E2; zb; [lia | discriminate].
+  intros Hm. destruct b.
+  - exists (j - 1 - m). split; [lia|]. unfold draws.
+    destruct (j - 1 - m <? j) eqn:E; zb; [|lia]. f_equal. lia.
+  - exists (j + m). split; [lia|]. unfold draws.
+    destruct (j + m <? j) eqn:E; zb; [lia|]. f_equal. lia.
 Qed.
+
+Lemma draws_unique j r r' : draws j r = draws j r' -> r = r'.
+Proof.
+  unfold draws. destruct (r <? j) eqn:E; destruct (r' <? j) eqn:E'; zb; intros H;
+    try discriminate H; injection H as H; lia.
+Qed.
+
+(* the offset produced by outcome number r is r - jitter (no int64 operation wraps) *)
+Lemma draws_offset j r m b :
+  0 < j <= max_i64 -> 0 <= r < 2 * j -> draws j r = (m, b) -> jitter_offset m b = r - j.
+Proof.
+  intros Hj Hr. unfold draws, jitter_offset, max_i64 in *.
+  destruct (r <? j) eqn:E; zb; intros H; injection H as <- <-; [|reflexivity].
+  rewrite (wrap64_small (- (j - 1 - r))) by (unfold max_i64; lia).
+  rewrite wrap64_small by (unfold max_i64; lia). lia.
+Qed.
+
+(* the valid oracle values of the code in /repo *)
+Lemma r_valid_cur_pos j r : 0 < j -> r_valid VCur j r = true -> 0 <= r < 2 * j.
+Proof.
+  intros Hj. cbn [r_valid]. destruct (0 <? j) eqn:E; zb; [|lia]. intros H. zb. lia.
+Qed.
+
+Lemma r_valid_cur_nonpos j r : j <= 0 -> r_valid VCur j r = true -> r = 0.
+Proof.
+  intros Hj. cbn [r_valid]. destruct (0 <? j) eqn:E; zb; [lia|]. intros H. zb. exact H.
+Qed.
+
+(* schedule() of the code in /repo never panics, whatever its arguments *)
+Lemma next_delay_cur_some d j r : exists nx, next_delay VCur d j r = Some nx.
+Proof. cbn [next_delay]. eexists. reflexivity. Qed.
+
+Lemma next_delay_no_jitter d j r : j <= 0 -> next_delay VCur d j r = Some d.
+Proof.
+  intros Hj. cbn [next_delay]. destruct (draws j r) as [m b]. unfold next_cur.
+  destruct (0 <? j) eqn:E; zb; [lia | reflexivity].
+Qed.
+
+(* EXACT value of the delay for int64 arguments: d + offset, saturated at math.MaxInt64 *)
+Lemma next_delay_exact d j r :
+  0 < j <= max_i64 -> - 9223372036854775808 <= d - j -> d <= max_i64 -> 0 <= r < 2 * j ->
+  next_delay VCur d j r = Some (Z.min (d + (r - j)) max_i64).
+Proof.
+  intros Hj Hlo Hd Hr. cbn [next_delay]. f_equal.
+  destruct (draws j r) as [m b] eqn:Edr.
+  pose proof (draws_offset j r m b Hj Hr Edr) as Hoff.
+  unfold next_cur. rewrite Hoff. unfold max_i64 in *.
+  destruct (0 <? j) eqn:Ej; zb; [|lia].
+  destruct (0 <? r - j) eqn:Eo; zb; cbn [andb].
+  - rewrite (wrap64_small (9223372036854775807 - (r - j))) by (unfold max_i64; lia).
+    destruct (9223372036854775807 - (r - j) <? d) eqn:Et; zb.
+    + lia.
+    + rewrite wrap64_small by (unfold max_i64; lia). lia.
+  - rewrite wrap64_small by (unfold max_i64; lia). lia.
+Qed.
+
+(* the delay chosen by schedule() for ALL documented int64 arguments: within [d - jitter, MaxInt64],
+   at most d + jitter - 1, never negative *)
+Lemma next_delay_range d j r nx :
+  next_delay VCur d j r = Some nx -> r_valid VCur j r = true ->
+  0 <= j < d -> d <= max_i64 -> d - j <= nx /\ nx <= max_i64 /\ nx <= d + j /\ 0 < nx.
+Proof.
+  intros Hn Hr Hj Hd.
+  destruct (Z.eq_dec j 0) as [->|Hj0].
+  - rewrite next_delay_no_jitter in Hn by lia. injection Hn as <-. lia.
+  - pose proof (r_valid_cur_pos j r ltac:(lia) Hr) as Hr'.
+    rewrite next_delay_exact in Hn by (unfold max_i64 in *; lia). injection Hn as <-.
+    unfold max_i64 in *. lia.
+Qed.
+
+Lemma next_delay_lb d j r nx :
+  next_delay VCur d j r = Some nx -> r_valid VCur j r = true ->
+  0 <= j < d -> d <= max_i64 -> d - j <= nx.
+Proof. intros Hn Hr Hj Hd. exact (proj1 (next_delay_range d j r nx Hn Hr Hj Hd)). Qed.
 
 (* ================= the invariant ================= *)
 Definition th_holds (p : tpc) : bool := match p with PLocked _ | PUnlock _ => true | _ => false end.
@@ -427,13 +493,13 @@ Definition cb_pre (c : cbpc) : bool := match c with CbNone | CbWantLock | CbLock
 
 Definition last_ok (snt : list (Z * Z * Z)) (tm : timer) : Prop :=
   match snt with
-  | (t, _, _) :: _ => 0 <= tm_j tm < tm_d tm -> tm_d tm + tm_j tm <= max_i64 -> t + (tm_d tm - tm_j tm) <= tm_dl tm
+  | (t, _, _) :: _ => 0 <= tm_j tm < tm_d tm -> tm_d tm <= max_i64 -> t + (tm_d tm - tm_j tm) <= tm_dl tm
   | [] => True
   end.
 
 Definition op_bad (o : op) : Prop :=
   match o with
-  | ONew d j | OReset d j => bad_args d j = true \/ (0 < j /\ rand_arg j <= 0)
+  | ONew d j | OReset d j => bad_args d j = true
   | OStop => True
   end.
 
@@ -456,7 +522,6 @@ Record TInv (s : st) : Prop := mkTInv {
   iR : map tick_ts (sent s) = optl (buf s) ++ recvd s;
   iS : stopped s = true -> forall k tm, nth_error (timers s) k = Some tm -> tm_gen tm < gen s /\ tm_cb tm <> CbSched;
   iN1 : forall th o, nth_error (thr s) th = Some (PPanicked o) -> op_bad o;
-  iN2 : mu s <> MDead -> 0 < fj s -> 0 < rand_arg (fj s);
   iN3 : forall k tm, nth_error (timers s) k = Some tm -> tm_cb tm <> CbCrashed
 }.
 
@@ -466,7 +531,6 @@ Proof.
   - intros th p H Hh. apply nth_error_In in H. apply repeat_spec in H. subst p. discriminate.
   - discriminate.
   - intros th o H. apply nth_error_In in H. apply repeat_spec in H. discriminate.
-  - intros _ H. lia.
 Qed.
 
 Ltac inv_step H :=
@@ -497,7 +561,7 @@ Proof.
 Qed.
 
 
-Ltac dI I := destruct I as [A1 A2 G F F2 T1 T2 T4 R S N1 N2 N3].
+Ltac dI I := destruct I as [A1 A2 G F F2 T1 T2 T4 R S N1 N3].
 
 Lemma tinv_LTick s t s' : TInv s -> step s (LTick t) = Some s' -> TInv s'.
 Proof.
@@ -524,20 +588,17 @@ Proof.
   intros I Hm. dI I. constructor; simpl; try assumption.
   - intros th p Hn Hh. specialize (A1 th p Hn Hh). congruence.
   - intros k tm Hn Hh. specialize (A2 k tm Hn Hh). congruence.
-  - intros _. apply N2. congruence.
 Qed.
 
 Lemma tinv_release s m :
   TInv s ->
   (forall th p, nth_error (thr s) th = Some p -> th_holds p = false) ->
   (forall k tm, nth_error (timers s) k = Some tm -> cb_holds (tm_cb tm) = false) ->
-  (m = MFree /\ mu s <> MDead \/ m = MDead) ->
   TInv (set_mu s m).
 Proof.
-  intros I Hth Hcb Hm. dI I. constructor; simpl; try assumption.
+  intros I Hth Hcb. dI I. constructor; simpl; try assumption.
   - intros th p Hn Hh. rewrite (Hth th p Hn) in Hh. discriminate.
   - intros k tm Hn Hh. rewrite (Hcb k tm Hn) in Hh. discriminate.
-  - intros Hnd. destruct Hm as [[-> Hm] | ->]; [apply N2; exact Hm | congruence].
 Qed.
 
 Definition tm_with (tm : timer) (st' : tmst) (c : cbpc) : timer :=
@@ -568,22 +629,12 @@ Qed.
 Lemma tm_with_cb tm c : tm_set_cb tm c = tm_with tm (tm_st tm) c.
 Proof. reflexivity. Qed.
 
-Lemma next_delay_none d j r : next_delay true d j r = None -> 0 < j /\ rand_arg j <= 0.
-Proof.
-  unfold next_delay, calls_rand. cbn [negb orb]. destruct (0 <? j) eqn:Ej; [|discriminate].
-  destruct (rand_arg j <=? 0) eqn:E; [|discriminate]. zb. intros _. split; assumption.
-Qed.
-
-Lemma next_delay_some d j r nx : next_delay true d j r = Some nx -> 0 < j -> 0 < rand_arg j.
-Proof.
-  unfold next_delay, calls_rand. cbn [negb orb]. intros H Hj.
-  assert (Ej : (0 <? j) = true) by (apply Z.ltb_lt; exact Hj). rewrite Ej in H.
-  destruct (rand_arg j <=? 0) eqn:E; [discriminate|]. zb. lia.
-Qed.
+Lemma schedule_cur_some s r : schedule VCur s r <> None.
+Proof. unfold schedule. cbn [next_delay]. discriminate. Qed.
 
 (* schedule() after the fields were set to (d, j), executed by the holder of the mutex *)
 Lemma tinv_sched s d j r s2 :
-  TInv s -> schedule true (set_fj (set_fd s d) j) r = Some s2 -> r_valid true j r = true ->
+  TInv s -> schedule VCur (set_fj (set_fd s d) j) r = Some s2 -> r_valid VCur j r = true ->
   TInv (set_stopped s2 false).
 Proof.
   intros I Hs Hr. dI I. apply schedule_spec in Hs. simpl in Hs.
@@ -610,7 +661,6 @@ Proof.
   - rewrite Esent. exact T4.
   - rewrite Esent, Ebuf, Erecvd. exact R.
   - rewrite Ethr. exact N1.
-  - rewrite Efj. intros _ Hj. eapply next_delay_some; eauto.
   - intros k tm' Hn. destruct (Htm k tm' Hn) as [[tm [Hn0 Hss]] | [-> ->]].
     + destruct Hss as [_ [_ [_ [_ [Ecb _]]]]]. rewrite Ecb. eauto.
     + discriminate.
@@ -631,8 +681,8 @@ Qed.
 Lemma tinv_TValidate s th s' : TInv s -> step s (TValidate th) = Some s' -> TInv s'.
 Proof.
   intros I H. inv_step H; apply tinv_set_pc; try discriminate; try apply tinv_set_life; try exact I.
-  - intros o0 E. injection E as <-. left. assumption.
-  - intros o0 E. injection E as <-. left. assumption.
+  - intros o0 E. injection E as <-. simpl. assumption.
+  - intros o0 E. injection E as <-. simpl. assumption.
 Qed.
 
 Lemma tinv_TLock s th s' : TInv s -> step s (TLock th) = Some s' -> TInv s'.
@@ -664,7 +714,6 @@ Proof.
     rewrite Hmu in H2. injection H2 as H2. congruence.
   - simpl. intros k tm Hn. destruct (cb_holds (tm_cb tm)) eqn:E; [|reflexivity].
     pose proof (iA2 s I k tm Hn E) as H2. congruence.
-  - left. split; [reflexivity|]. simpl. congruence.
 Qed.
 
 Lemma tinv_TFire s k s' : TInv s -> step s (TFire k) = Some s' -> TInv s'.
@@ -709,7 +758,6 @@ Proof.
   - simpl. intros k' tm' Hn. apply nth_upd_cases in Hn. destruct Hn as [[-> ->] | [Hne Hn]]; [reflexivity|].
     destruct (cb_holds (tm_cb tm')) eqn:E; [|reflexivity].
     pose proof (iA2 s I k' tm' Hn E) as H2. rewrite Hmu in H2. injection H2 as H2. congruence.
-  - left. split; [reflexivity|]. simpl. congruence.
 Qed.
 
 Ltac cbsend_pre s k I :=
@@ -764,9 +812,9 @@ Proof.
   - (* schedule succeeded *)
     match goal with E : nth_error (timers s) k = Some ?t |- _ => rename E into Hk; rename t into tm end.
     match goal with E : tm_cb tm = CbSched |- _ => rename E into Ecb end.
-    match goal with E : schedule true s r = Some ?x |- _ => rename E into Hs; rename x into s2 end.
+    match goal with E : schedule VCur s r = Some ?x |- _ => rename E into Hs; rename x into s2 end.
     match goal with E : nth_error (timers s2) k = Some ?t |- _ => rename E into Hk2; rename t into tm2 end.
-    match goal with E : r_valid true (fj s) r = true |- _ => rename E into Hr end.
+    match goal with E : r_valid VCur (fj s) r = true |- _ => rename E into Hr end.
     assert (Hmu : mu s = MCb k) by (eapply (iA2 s I); [exact Hk | rewrite Ecb; reflexivity]).
     assert (Hns : stopped s = false).
     { destruct (stopped s) eqn:E; [|reflexivity]. destruct (iS s I E k tm Hk) as [_ Hx]. congruence. }
@@ -788,14 +836,7 @@ Proof.
     + intros X. pose proof (iF2 s2 I2 k tm2 Hk2 X). congruence.
   - (* schedule cannot fail inside the callback *)
     exfalso.
-    match goal with E : nth_error (timers s) k = Some ?t |- _ => rename E into Hk; rename t into tm end.
-    match goal with E : tm_cb tm = CbSched |- _ => rename E into Ecb end.
-    match goal with E : schedule true s r = None |- _ => rename E into Hs end.
-    assert (Hmu : mu s = MCb k) by (eapply (iA2 s I); [exact Hk | rewrite Ecb; reflexivity]).
-    unfold schedule in Hs. destruct (next_delay true (fd s) (fj s) r) eqn:En; [discriminate|].
-    apply next_delay_none in En. destruct En as [Hj Hra].
-    assert (Hnd : mu s <> MDead) by congruence.
-    pose proof (iN2 s I Hnd Hj). lia.
+    match goal with E : schedule VCur s r = None |- _ => exact (schedule_cur_some s r E) end.
 Qed.
 
 Lemma no_holders_after s th p :
@@ -811,50 +852,22 @@ Proof.
     pose proof (iA2 s I k tm Hn E) as H2. congruence.
 Qed.
 
-(* a panic unwinds out of NewJitterTicker / Reset with the fields already set and t.m still locked *)
-Lemma tinv_dead_fields s d j :
-  TInv s ->
-  (forall th p, nth_error (thr s) th = Some p -> th_holds p = false) ->
-  (forall k tm, nth_error (timers s) k = Some tm -> cb_holds (tm_cb tm) = false) ->
-  TInv (set_mu (set_fj (set_fd s d) j) MDead).
-Proof.
-  intros I Hth Hcb. dI I. constructor; simpl; try assumption.
-  - intros th p Hn Hh. rewrite (Hth th p Hn) in Hh. discriminate.
-  - intros k tm Hn Hh. rewrite (Hcb k tm Hn) in Hh. discriminate.
-  - intros Hx. exfalso. apply Hx. reflexivity.
-Qed.
-
 Lemma tinv_TBodySched s th r s' : TInv s -> step s (TBodySched th r) = Some s' -> TInv s'.
 Proof.
   intros I H. inv_step H;
   (match goal with E : nth_error (thr s) th = Some (PLocked ?o) |- _ =>
          assert (Hmu : mu s = MTh th) by (eapply (iA1 s I); [exact E | reflexivity]) end);
   (match goal with
-       | E : schedule true _ r = Some ?x |- _ =>
-           match goal with Hr : r_valid true _ r = true |- _ =>
+       | E : schedule VCur _ r = Some ?x |- _ =>
+           match goal with Hr : r_valid VCur _ r = true |- _ =>
              pose proof (tinv_sched _ _ _ _ _ I E Hr) as I2;
              apply tinv_set_pc; [exact I2 | | discriminate];
              intros _; simpl; apply schedule_spec in E; simpl in E;
              destruct E as (_ & _ & _ & _ & _ & _ & Emu & _); congruence
            end
-       | E : schedule true _ r = None |- _ =>
-         unfold schedule in E; simpl in E;
-         match type of E with context [next_delay true ?d ?j r] =>
-           destruct (next_delay true d j r) eqn:En; [discriminate E|]; apply next_delay_none in En end
+       | E : schedule VCur ?x r = None |- _ =>       (* schedule() of the code in /repo never panics *)
+           exfalso; exact (schedule_cur_some x r E)
        end).
-  - (* ONew panics *)
-    match goal with |- TInv (set_life (set_pc (set_mu (set_fj (set_fd s ?d) ?j) MDead) th ?p) LNone) =>
-      change (TInv (set_life (set_mu (set_fj (set_fd (set_pc s th p) d) j) MDead) LNone)) end.
-    apply tinv_set_life.
-    destruct (no_holders_after s th (PPanicked (ONew d j)) I Hmu eq_refl) as [Hh1 Hh2].
-    apply tinv_dead_fields; [|exact Hh1|exact Hh2].
-    apply tinv_set_pc; [exact I | discriminate|]. intros o9 E. injection E as <-. right. exact En.
-  - (* OReset panics *)
-    match goal with |- TInv (set_pc (set_mu (set_fj (set_fd s ?d) ?j) MDead) th ?p) =>
-      change (TInv (set_mu (set_fj (set_fd (set_pc s th p) d) j) MDead)) end.
-    destruct (no_holders_after s th (PPanicked (OReset d j)) I Hmu eq_refl) as [Hh1 Hh2].
-    apply tinv_dead_fields; [|exact Hh1|exact Hh2].
-    apply tinv_set_pc; [exact I | discriminate|]. intros o9 E. injection E as <-. right. exact En.
 Qed.
 
 Lemma tinv_TBodyStop s th s' : TInv s -> step s (TBodyStop th) = Some s' -> TInv s'.
@@ -888,7 +901,7 @@ Proof.
       change (TInv (set_stopped (set_mu (set_pc s th p) MDead) true)) end.
     destruct (no_holders_after s th (PPanicked OStop) I Hmu eq_refl) as [Hh1 Hh2].
     assert (I1 : TInv (set_mu (set_pc s th (PPanicked OStop)) MDead)).
-    { apply tinv_release; [|exact Hh1|exact Hh2|right; reflexivity].
+    { apply tinv_release; [|exact Hh1|exact Hh2].
       apply tinv_set_pc; [exact I | discriminate|]. intros o9 E. injection E as <-. exact Logic.I. }
     assert (HS : forall k tm, nth_error (timers s) k = Some tm -> tm_gen tm < gen s /\ tm_cb tm <> CbSched).
     { intros k tm Hn. destruct (iG s I k tm Hn) as [Hle Heq]. split.
@@ -924,28 +937,35 @@ Qed.
 (* ================= consequences ================= *)
 
 (* --- no panic --- *)
-Lemma op_bad_documented d j :
-  0 < d -> 0 <= j < d -> 2 * j <= max_i64 ->
-  ~ (bad_args d j = true \/ (0 < j /\ rand_arg j <= 0)).
+Lemma op_bad_documented d j : 0 < d -> j < d -> bad_args d j <> true.
 Proof.
-  intros Hd Hj Hmax [Hb | [Hj0 Hr]].
-  - unfold bad_args in Hb. apply orb_true_iff in Hb. destruct Hb as [Hb|Hb]; zb; lia.
-  - unfold rand_arg in Hr. rewrite wrap64_small in Hr by (unfold max_i64 in *; lia). lia.
+  intros Hd Hj Hb. unfold bad_args in Hb. apply orb_true_iff in Hb. destruct Hb as [Hb|Hb]; zb; lia.
+Qed.
+
+(* a call panics ONLY for the documented reason (d <= 0 or jitter >= d), Stop only on a stopped/nil timer *)
+Theorem ticker_panic_only_bad_args n s th o :
+  reachable step (tinit n) s -> nth_error (thr s) th = Some (PPanicked o) ->
+  match o with ONew d j | OReset d j => d <= 0 \/ d <= j | OStop => True end.
+Proof.
+  intros Hr E. pose proof (iN1 s (tinv_reachable _ _ Hr) th o E) as Hb.
+  destruct o as [d j|d j|]; [| |exact Logic.I]; simpl in Hb; unfold bad_args in Hb;
+    apply orb_true_iff in Hb; destruct Hb as [Hb|Hb]; zb; [left|right|left|right]; exact Hb.
 Qed.
 
 Theorem ticker_no_panic n s th d j :
   reachable step (tinit n) s ->
-  0 < d -> 0 <= j < d -> 2 * j <= max_i64 ->
+  0 < d -> 0 <= j < d ->
   nth_error (thr s) th <> Some (PPanicked (ONew d j))
   /\ nth_error (thr s) th <> Some (PPanicked (OReset d j))
   /\ step s (LRet th (ONew d j) RPanic) = None
   /\ step s (LRet th (OReset d j) RPanic) = None.
 Proof.
-  intros Hr Hd Hj Hmax. pose proof (tinv_reachable _ _ Hr) as I.
+  intros Hr Hd Hj. pose proof (tinv_reachable _ _ Hr) as I.
+  assert (Hnb : bad_args d j <> true) by (apply op_bad_documented; lia).
   assert (H1 : nth_error (thr s) th <> Some (PPanicked (ONew d j))).
-  { intros E. apply (op_bad_documented d j Hd Hj Hmax). exact (iN1 s I th _ E). }
+  { intros E. apply Hnb. exact (iN1 s I th _ E). }
   assert (H2 : nth_error (thr s) th <> Some (PPanicked (OReset d j))).
-  { intros E. apply (op_bad_documented d j Hd Hj Hmax). exact (iN1 s I th _ E). }
+  { intros E. apply Hnb. exact (iN1 s I th _ E). }
   split; [exact H1|]. split; [exact H2|].
   split.
   - destruct (step s (LRet th (ONew d j) RPanic)) eqn:E; [|reflexivity]. exfalso.
@@ -960,6 +980,23 @@ Proof.
     destruct o; simpl in Eo; try discriminate. zb. subst. apply H2. reflexivity.
 Qed.
 
+(* the body of NewJitterTicker / Reset (set the fields, schedule()) completes normally from every state in
+   which it can run, whatever d and jitter: schedule() itself has no panic left *)
+Theorem ticker_body_completes s th o r s' :
+  step s (TBodySched th r) = Some s' -> nth_error (thr s) th = Some (PLocked o) ->
+  nth_error (thr s') th = Some (PUnlock o) /\ mu s' = mu s.
+Proof.
+  intros H Ho. cbv beta iota zeta delta [step step_gen] in H. rewrite Ho in H.
+  destruct o as [d j|d j|]; [| |discriminate H];
+    (destruct (r_valid VCur j r); [|discriminate H]);
+    (destruct (schedule VCur (set_fj (set_fd s d) j) r) as [s2|] eqn:Es;
+       [|exfalso; exact (schedule_cur_some _ r Es)]);
+    injection H as <-; apply schedule_spec in Es; simpl in Es;
+    destruct Es as (_ & _ & _ & _ & _ & _ & Emu & _ & Ethr & _ & _ & _ & _);
+    (split; [|simpl; exact Emu]); simpl; rewrite Ethr;
+    apply nth_error_upd_same; apply nth_error_Some; congruence.
+Qed.
+
 (* the callback goroutine never panics (it would crash the whole program), whatever was passed *)
 Theorem ticker_callback_no_panic n s k tm :
   reachable step (tinit n) s -> nth_error (timers s) k = Some tm -> tm_cb tm <> CbCrashed.
@@ -968,14 +1005,49 @@ Proof. intros Hr. exact (iN3 s (tinv_reachable _ _ Hr) k tm). Qed.
 Definition huge_j : Z := 4611686018427387904.        (* 2^62 ns, about 146 years *)
 Definition huge_d : Z := 4611686018427387905.
 
-(* ... but the unrestricted claim is false: a documented pair with 2*jitter > max_i64 panics *)
-Lemma ticker_no_panic_refuted :
+Definition p61 : Z := 2305843009213693952.           (* 2^61 ns *)
+
+(* The ORIGINAL computation (next += Int63n(int64(jitter*2)) - jitter) panics for the documented pair
+   (d = 2^62+1, jitter = 2^62): int64(jitter*2) wraps to -2^63 and rand.Int63n panics (with t.m held).
+   The code in /repo, from the same state with the same label, completes. *)
+Lemma ticker_orig_panics_refuted :
   0 < huge_d /\ 0 <= huge_j < huge_d /\ huge_d <= max_i64 /\
-  exists s, run step (tinit 1) [LCall 0 (ONew huge_d huge_j); TValidate 0; TLock 0; TBodySched 0 0] = Some s
-            /\ nth_error (thr s) 0 = Some (PPanicked (ONew huge_d huge_j)).
+  (exists s, run step_orig (tinit 1) [LCall 0 (ONew huge_d huge_j); TValidate 0; TLock 0; TBodySched 0 0] = Some s
+             /\ nth_error (thr s) 0 = Some (PPanicked (ONew huge_d huge_j)) /\ mu s = MDead)
+  /\ (exists s, run step (tinit 1) [LCall 0 (ONew huge_d huge_j); TValidate 0; TLock 0; TBodySched 0 0] = Some s
+                /\ nth_error (thr s) 0 = Some (PUnlock (ONew huge_d huge_j))
+                /\ map tm_dl (timers s) = [1]).
 Proof.
   split; [reflexivity|]. split; [split; [discriminate | reflexivity]|]. split; [discriminate|].
-  eexists. split; [vm_compute; reflexivity | reflexivity].
+  split; eexists; (split; [vm_compute; reflexivity | split; reflexivity]).
+Qed.
+
+(* The ORIGINAL computation schedules a NEGATIVE delay for the documented pair (d = max_i64, jitter = 2^61)
+   when rand.Int63n returns more than jitter (here 2^61+1: offset +1, d + 1 wraps to -2^63): the timer fires
+   at once, and two consecutive ticks are 2 ns apart although d - jitter is about 219 years.  The code in
+   /repo computes max_i64 (saturation) for the outcome with the same offset. *)
+Definition orig_ovf_run : list lab :=
+  [LCall 0 (ONew max_i64 p61); TValidate 0; TLock 0; TBodySched 0 (p61 + 1); TUnlock 0;
+   LRet 0 (ONew max_i64 p61) RNormal;
+   LTick 5; TFire 0; TCbLock 0; TCbSend 0; TCbSchedule 0 (p61 + 1); TCbUnlock 0; LRecv 5;
+   LTick 7; TFire 1; TCbLock 1; TCbSend 1].
+
+Lemma ticker_orig_spacing_refuted :
+  0 <= p61 < max_i64 /\
+  next_delay VOrig max_i64 p61 (p61 + 1) = Some (- 9223372036854775808)
+  /\ r_valid VOrig p61 (p61 + 1) = true
+  /\ (exists s, run step_orig (tinit 1) orig_ovf_run = Some s
+                /\ sent s = [(7, max_i64, p61); (5, max_i64, p61)] /\ ~ spaced (sent s))
+  /\ next_delay VCur max_i64 p61 (p61 + 1) = Some max_i64
+  /\ run step (tinit 1) orig_ovf_run = None.
+Proof.
+  split; [split; [discriminate | reflexivity]|].
+  split; [vm_compute; reflexivity|]. split; [vm_compute; reflexivity|].
+  split.
+  - eexists. split; [vm_compute; reflexivity|]. split; [reflexivity|].
+    intros [H _]. unfold max_i64, p61 in H.
+    assert (X : 9223372036854775807 - 2305843009213693952 <= 7 - 5) by (apply H; lia). lia.
+  - split; vm_compute; reflexivity.
 Qed.
 
 (* the historical code (rand.Int63n called unconditionally) panics for jitter = 0; the current code does not *)
@@ -985,6 +1057,41 @@ Lemma ticker_old_refuted :
   /\ (exists s, run step (tinit 1) [LCall 0 (ONew 5 0); TValidate 0; TLock 0; TBodySched 0 0] = Some s
                 /\ nth_error (thr s) 0 = Some (PUnlock (ONew 5 0))).
 Proof. split; eexists; (split; [vm_compute; reflexivity | reflexivity]). Qed.
+
+(* --- the delay handed to time.AfterFunc --- *)
+
+(* for ALL documented int64 arguments and every outcome of the two rand draws, schedule() computes a delay
+   (it does not panic) that lies in [d - jitter, math.MaxInt64]: never negative, never below d - jitter,
+   and it is exactly d + offset saturated at math.MaxInt64 *)
+Theorem ticker_delay_documented d j r :
+  0 < d <= max_i64 -> 0 <= j < d -> r_valid VCur j r = true ->
+  exists nx, next_delay VCur d j r = Some nx
+             /\ d - j <= nx <= max_i64 /\ nx <= d + j /\ 0 < nx
+             /\ (0 < j -> nx = Z.min (d + (r - j)) max_i64) /\ (j = 0 -> nx = d).
+Proof.
+  intros Hd Hj Hr. destruct (next_delay_cur_some d j r) as [nx Hn]. exists nx. split; [exact Hn|].
+  destruct (next_delay_range d j r nx Hn Hr Hj (proj2 Hd)) as (H1 & H2 & H3 & H4).
+  split; [split; assumption|]. split; [exact H3|]. split; [exact H4|]. split.
+  - intros Hj0. pose proof (r_valid_cur_pos j r Hj0 Hr) as Hr'.
+    rewrite next_delay_exact in Hn by (unfold max_i64 in *; lia). injection Hn as <-. reflexivity.
+  - intros ->. rewrite next_delay_no_jitter in Hn by lia. injection Hn as <-. reflexivity.
+Qed.
+
+(* the same at the level of the state: the timer created by schedule() (it becomes t.timer) is armed for a
+   deadline in [now + d - jitter, now + math.MaxInt64] *)
+Theorem ticker_schedule_deadline s r s2 :
+  schedule VCur s r = Some s2 -> r_valid VCur (fj s) r = true ->
+  0 <= fj s < fd s -> fd s <= max_i64 ->
+  exists tm, tmr s2 = Some (length (timers s)) /\ nth_error (timers s2) (length (timers s)) = Some tm
+             /\ tm_st tm = TArmed /\ tm_gen tm = gen s2
+             /\ now s + (fd s - fj s) <= tm_dl tm <= now s + max_i64.
+Proof.
+  intros Hs Hr Hj Hd. destruct (schedule_inv _ _ _ _ Hs) as [nx [tms1 [Hnx [Hlen [_ ->]]]]].
+  exists (new_timer s nx). simpl. rewrite Hlen.
+  split; [reflexivity|]. split; [rewrite <- Hlen, nth_error_app2, Nat.sub_diag by lia; reflexivity|].
+  split; [reflexivity|]. split; [reflexivity|].
+  destruct (next_delay_range _ _ _ _ Hnx Hr Hj Hd) as (H1 & H2 & _). lia.
+Qed.
 
 (* --- spacing --- *)
 Theorem ticker_spacing n s : reachable step (tinit n) s -> spaced (sent s).
@@ -999,7 +1106,7 @@ Proof. intros Hr. exact (iR s (tinv_reachable _ _ Hr)). Qed.
 (* unfolded for two adjacent ticks *)
 Corollary ticker_spacing_adjacent n s t2 d2 j2 t1 d1 j1 pre post :
   reachable step (tinit n) s -> sent s = pre ++ (t2, d2, j2) :: (t1, d1, j1) :: post ->
-  0 <= j2 < d2 -> d2 + j2 <= max_i64 -> d2 - j2 <= t2 - t1.
+  0 <= j2 < d2 -> d2 <= max_i64 -> d2 - j2 <= t2 - t1.
 Proof.
   intros Hr Hs. pose proof (ticker_spacing _ _ Hr) as Hsp. rewrite Hs in Hsp. clear Hs Hr.
   induction pre as [|[[t d] j] pre IH]; simpl in Hsp.
@@ -1015,12 +1122,12 @@ Lemma step_sent s l s' :
   sent s' = sent s \/ exists k tm, l = TCbSend k /\ nth_error (timers s) k = Some tm /\ gen s = tm_gen tm.
 Proof.
   intros H. destruct l; inv_step H; simpl; try (left; reflexivity).
-  - left. match goal with E : schedule true _ _ = Some _ |- _ => apply schedule_spec in E; simpl in E;
+  - left. match goal with E : schedule VCur _ _ = Some _ |- _ => apply schedule_spec in E; simpl in E;
             destruct E as (_ & _ & _ & _ & _ & _ & _ & _ & _ & E & _); exact E end.
-  - left. match goal with E : schedule true _ _ = Some _ |- _ => apply schedule_spec in E; simpl in E;
+  - left. match goal with E : schedule VCur _ _ = Some _ |- _ => apply schedule_spec in E; simpl in E;
             destruct E as (_ & _ & _ & _ & _ & _ & _ & _ & _ & E & _); exact E end.
   - right. zb. eauto.
-  - left. match goal with E : schedule true _ _ = Some _ |- _ => apply schedule_spec in E; simpl in E;
+  - left. match goal with E : schedule VCur _ _ = Some _ |- _ => apply schedule_spec in E; simpl in E;
             destruct E as (_ & _ & _ & _ & _ & _ & _ & _ & _ & E & _); exact E end.
 Qed.
 
@@ -1033,7 +1140,7 @@ Lemma step_stopped s l s' :
   end.
 Proof.
   intros H. destruct l; inv_step H; simpl; try reflexivity; try exact Logic.I.
-  match goal with E : schedule true _ _ = Some _ |- _ => apply schedule_spec in E; simpl in E;
+  match goal with E : schedule VCur _ _ = Some _ |- _ => apply schedule_spec in E; simpl in E;
     destruct E as (_ & _ & _ & _ & _ & _ & _ & _ & _ & _ & _ & E & _); exact E end.
 Qed.
 
@@ -1089,7 +1196,7 @@ Proof.
   intros H Hp. unfold stop_post in *.
   destruct l; inv_step H; simpl in Hp;
     try (left; exact Hp);
-    try (match goal with E : schedule true _ _ = Some _ |- _ => apply schedule_spec in E; simpl in E;
+    try (match goal with E : schedule VCur _ _ = Some _ |- _ => apply schedule_spec in E; simpl in E;
            destruct E as (_ & _ & _ & _ & _ & _ & _ & _ & E & _); try rewrite E in Hp end);
     try (left; exact Hp);
     try (destruct Hp as [Hp|Hp]; apply nth_upd_cases in Hp; destruct Hp as [[-> Hp] | [_ Hp]];
@@ -1129,6 +1236,46 @@ Example ticker_runs :
             /\ sent s = [(260, 50, 0); (95, 100, 10)] /\ recvd s = [260; 95] /\ buf s = None
             /\ stopped s = true /\ gen s = 5 /\ mu s = MFree /\ length (timers s) = 4%nat.
 Proof. eexists. split; [vm_compute; reflexivity|]. repeat split. Qed.
+
+(* non-vacuity for the huge documented arguments: NewJitterTicker(2^62+1, 2^62) with the smallest offset
+   (delay 1), a tick, a reschedule with the largest offset (d + jitter - 1 = 2^63 saturates to MaxInt64), a
+   Reset(MaxInt64, 2^61) with offset +1 (saturates) - nothing panics, deadlines are never in the past *)
+Definition huge_run : list lab :=
+  [LCall 0 (ONew huge_d huge_j); TValidate 0; TLock 0; TBodySched 0 0; TUnlock 0;
+   LRet 0 (ONew huge_d huge_j) RNormal;
+   LTick 1; TFire 0; TCbLock 0; TCbSend 0; TCbSchedule 0 (2 * huge_j - 1); TCbUnlock 0; LRecv 1;
+   LCall 0 (OReset max_i64 p61); TValidate 0; TLock 0; TBodySched 0 (p61 + 1); TUnlock 0;
+   LRet 0 (OReset max_i64 p61) RNormal;
+   LTick (1 + max_i64); TFire 2; TCbLock 2; TCbSend 2; TCbSchedule 2 0; TCbUnlock 2].
+
+Example ticker_huge_runs :
+  (exists s, run step (tinit 1) huge_run = Some s
+             /\ sent s = [(1 + max_i64, max_i64, p61); (1, huge_d, huge_j)]
+             /\ map tm_dl (timers s) = [1; 1 + max_i64; 1 + max_i64; 1 + max_i64 + (max_i64 - p61)]
+             /\ map tm_st (timers s) = [TFired; TIdle; TFired; TArmed]
+             /\ mu s = MFree /\ thr s = [PIdle])
+  /\ next_delay VCur max_i64 p61 0 = Some (max_i64 - p61)
+  /\ next_delay VCur max_i64 p61 (p61 + 1) = Some max_i64
+  /\ next_delay VCur max_i64 p61 (2 * p61 - 1) = Some max_i64
+  /\ next_delay VCur max_i64 p61 p61 = Some max_i64
+  /\ next_delay VCur huge_d huge_j 0 = Some 1
+  /\ next_delay VCur huge_d huge_j huge_j = Some huge_d
+  /\ next_delay VCur huge_d huge_j (2 * huge_j - 1) = Some max_i64
+  /\ r_valid VCur huge_j (2 * huge_j - 1) = true /\ r_valid VCur huge_j (2 * huge_j) = false
+  /\ r_valid VCur p61 (2 * p61 - 1) = true /\ r_valid VCur 0 0 = true /\ r_valid VCur 0 1 = false.
+Proof.
+  split; [eexists; split; [vm_compute; reflexivity | repeat split]|].
+  repeat split; vm_compute; reflexivity.
+Qed.
+
+(* the numbering of the two draws: jitter = 10, outcome 3 is (magnitude 6, sign 1) = offset -7; outcome 19 is
+   (magnitude 9, sign 0) = offset +9; outcome 0 is offset -10, outcome 10 is offset 0 *)
+Example draws_examples :
+  draws 10 3 = (6, true) /\ jitter_offset 6 true = -7 /\ draws 10 19 = (9, false) /\ jitter_offset 9 false = 9
+  /\ draws 10 0 = (9, true) /\ jitter_offset 9 true = -10 /\ draws 10 10 = (0, false)
+  /\ next_delay VCur 100 10 3 = Some 93 /\ next_delay VCur 100 10 19 = Some 109
+  /\ next_delay VCur 100 0 0 = Some 100.
+Proof. repeat split; vm_compute; reflexivity. Qed.
 
 (* the guided matcher explores runs of the model only *)
 Lemma mstep_sound s pend l s' pend' : mstep (s, pend) l = Some (s', pend') -> step s l = Some s'.
